@@ -132,6 +132,12 @@ where
                 .await
                 .context("Failed to write to temp file")?;
         }
+        // Writes to a tokio file complete in the background, make sure the chunk
+        // data is fully written before the file is read back.
+        temp_file
+            .flush()
+            .await
+            .context("Failed to flush temp file")?;
     }
     Ok((
         source_hasher.finalize().to_vec(),
